@@ -175,7 +175,7 @@ class Impl:
                 pf.close()
         return res
 
-    def lay_out(self, proj_rel, md_lines, manifests):
+    def lay_out(self, proj_rel, md_lines, manifests, files=None):
         """(Re)create the directory tree `<root>/lay` of the layout stream: the project file
         `<proj_rel>/ford.md` and, per directory, what `fpm.toml` is there (`None` = nothing, `"<dir>"` = a
         directory of that name, else the text of the file)."""
@@ -196,6 +196,11 @@ class Impl:
                 f.mkdir()
             else:
                 f.write_text(text)
+        for rel, text in (files or {}).items():
+            f = lay / rel
+            f.parent.mkdir(parents=True, exist_ok=True)
+            with open(f, "w", newline="") as fh:
+                fh.write(text)
         return lay
 
     def run_layout(self, lay, cwd_rel, addr, argv, config=None):
@@ -622,6 +627,7 @@ class Ctx:
         self.cli = {e[0]: (e[1], e[2]) for e in tables["cli"]}
         self.specials = {n: default_spellings(n, tag, d, tables.get("sentinels", ())) for n, tag, d in tables["schema"]}
         self.pending = []   # (model request, impl obs, description)
+        self.inc_repaired = False  # variant of the include workaround (decided in run())
         self.eff_cmd = "c15.eff"   # "c15.effr": variant `repaired` of the extra_mods merge (decided in run())
         self.hist = {}
         self.samples = []
@@ -1020,8 +1026,14 @@ def manifest_state(text):
     return "ford", data["extra"]["ford"]
 
 
-def layout_request(cmd, lay, cwd, addr, pkg, manifests, md_lines, cli_kv):
-    r = [cmd, str(cwd), addr, pkg]
+def read_lines(path):
+    """what `IncludePreprocessor` gets from a file: `readlines()` (text mode, utf-8), line ends stripped"""
+    with open(path, "r", encoding="utf-8") as fh:
+        return [x.rstrip("\r\n") for x in fh.readlines()]
+
+
+def layout_request(cmd, lay, cwd, addr, pkg, manifests, md_lines, cli_kv, files=None, inc_repaired=False):
+    r = [cmd, str(cwd), addr, pkg, "1" if inc_repaired else "0"]
     ents = []
     for rel, text in manifests.items():
         st, kw = manifest_state(text)
@@ -1033,6 +1045,10 @@ def layout_request(cmd, lay, cwd, addr, pkg, manifests, md_lines, cli_kv):
         r += [d, st, str(len(kw))]
         for k, v in kw.items():
             r += [k, enc_val(v)]
+    r.append(str(len(files or {})))
+    for rel in (files or {}):
+        ls = read_lines(lay / rel)
+        r += [os.path.normpath(str(lay / rel)), str(len(ls))] + ls
     r += [str(len(md_lines))] + list(md_lines)
     r += ["0", "0"]
     r += [str(len(cli_kv))]
@@ -1096,6 +1112,60 @@ def distractor_text(cx, kind, usable):
             "invalid": "this is [not toml\n", "<dir>": "<dir>", "emptyfile": ""}[kind], None
 
 
+
+INC_OPTIONS = ["summary", "author", "author_description", "version", "project", "email", "website", "revision"]
+INC_NAMES = ["inc.md", "inc.md", "incs/inc.md", "./inc.md", "../up.md", "missing.md", "other.md", "<abs>"]
+INC_STYLES = {"one": "{T}", "multi": "{T}\nline two\n", "empty": "", "crlf": "{T}\r\nsecond\r\n", "nl": "{T}\n"}
+
+
+def include_files(style):
+    """text files lying in every directory of the layout; the content names the directory, so that a file
+    taken from the wrong directory shows"""
+    files = {}
+    for d in LAY_DIRS:
+        pre = (d + "/") if d else ""
+        for rel, tag in (("inc.md", "INC"), ("incs/inc.md", "SUBINC"), ("up.md", "UP"), ("other.md", "OTHER")):
+            files[pre + rel] = INC_STYLES[style].replace("{T}", f"{tag}[{d or 'root'}]")
+    files["other/absfile.md"] = "ABS\n"
+    return files
+
+
+def gen_include_value(rng, lay):
+    def stmt():
+        name = rng.choice(INC_NAMES)
+        if name == "<abs>":
+            name = str(lay / "other" / rng.choice(["absfile.md", "up.md", "nosuch.md"]))
+        return "{!" + rng.choice(["", " ", "  "]) + name + rng.choice(["", " "]) + "!}"
+    lines = [stmt() + rng.choice(["", "", " tail", "."])]
+    for _ in range(rng.choice([0, 0, 0, 1, 2])):
+        lines.append(rng.choice(["plain second", "see " + stmt() + " end", stmt(), "a { b ! c"]))
+    return "\n".join(lines)
+
+
+def expected_include(proj_abs: Path, base_written, value: str):
+    """Oracle side (documentation: `{!file!}` "will be replaced by the contents of file"; md_base_dir is "the directory
+    relative to which any included Markdown files' paths are specified", default the directory containing the project
+    file; and, from the property, a relative md_base_dir is relative to the project file)."""
+    import re
+    base = os.path.normpath(os.path.join(str(proj_abs), base_written if base_written is not None else "."))
+    out = []
+    for line in value.split("\n"):
+        m = re.match(r"^(.*?)\{!\s*(\S+?)\s*!\}(.*)$", line)
+        if not m:
+            out.append(line)
+            continue
+        pre, name, post = m.groups()
+        f = os.path.normpath(os.path.join(base, name))
+        if os.path.isfile(f):
+            text = read_lines(f) or [""]
+            text[0] = pre + text[0]
+            text[-1] = text[-1] + post
+            out += text
+        else:
+            out.append(pre + post)
+    return "\n".join(out)
+
+
 def layout_case(cx: Ctx, usable, stored=None):
     """One project (options in the metadata block, or in the manifest next to the project file), manifests of other
     packages lying in the other directories, FORD started from several working directories with several spellings of
@@ -1116,11 +1186,26 @@ def layout_case(cx: Ctx, usable, stored=None):
                 v = v.replace("%", "pc")
             opts.append((n, t, v))
         seps = cx.t["seps"]
-        md, manifests = [], {}
+        md, manifests, files, inc = [], {}, {}, {}
         if fmt == "md":
             md = ["---"]
             for key, t, v in opts:
                 md += md_lines_for(rng, key, t, v, seps.get(key, "="))
+            if rng.random() < 0.45:
+                # the (deprecated) include workaround of the metadata format: a string option whose value opens with `{!file!}`
+                style = rng.choice(sorted(INC_STYLES))
+                files = include_files(style)
+                cand = [k for k in INC_OPTIONS if k in cx.fields and k not in [o[0] for o in opts]]
+                if "md_base_dir" not in [o[0] for o in opts] and rng.random() < 0.5:
+                    bv = rng.choice(["incs", ".", "./incs", "..", "other", str(cx.impl.root / "lay" / "other")])
+                    opts.append(("md_base_dir", "path", bv))
+                    md += md_lines_for(rng, "md_base_dir", "path", bv, "=")
+                for key in rng.sample(cand, rng.choice([1, 1, 2])):
+                    v = gen_include_value(rng, cx.impl.root / "lay")
+                    inc[key] = v
+                    vl = v.split("\n")
+                    md += [f"{key}: {vl[0]}"] + ["    " + x for x in vl[1:]]
+                cx.count("layout:include:" + style)
             md.append(rng.choice(["---", "..."]))
             own = rng.choice([None, None, None, None, "<dir>", "noExtra", "noFord", "noFord2", "emptyfile", "invalid"])
             manifests[proj_rel] = None if own is None else distractor_text(cx, own, usable)[0]
@@ -1153,17 +1238,21 @@ def layout_case(cx: Ctx, usable, stored=None):
         cx.count("layout:own-source:" + fmt + "/" + own_kind)
     else:
         proj_rel, fmt, md, manifests, cli, starts = (stored[k] for k in ("project_dir", "fmt", "md", "manifests", "cli", "starts"))
+        files, inc = stored.get("files") or {}, stored.get("include") or {}
         opts = [tuple(o) for o in stored["options"]]
         starts = [tuple(x) for x in starts]
     lay = cx.impl.root / "lay"
     pf_abs = lay / proj_rel / "ford.md"
     proj_abs = Path(os.path.normpath(str(lay / proj_rel)))
     desc = {"stream": "layout", "project_dir": proj_rel, "fmt": fmt, "options": [list(o) for o in opts], "md": md,
-            "manifests": manifests, "cli": cli, "starts": [list(x) for x in starts]}
+            "manifests": manifests, "cli": cli, "starts": [list(x) for x in starts], "files": files, "include": inc}
     argv, cli_kv = cli_argv(cx, cli)
+    base_written = next((v for k, _, v in opts if k == "md_base_dir"), None)
+    # decidable class of C15-md-include-base-dir-cwd: an include statement + a *relative* md_base_dir in the metadata
+    inc_class = "C15-md-include-base-dir-cwd" if (inc and base_written is not None and not base_written.startswith("/")) else None
     results = []
+    cx.impl.lay_out(proj_rel, md, manifests, files)
     for cwd_rel, style in starts:
-        cx.impl.lay_out(proj_rel, md, manifests)
         cwd_abs = cx.impl.root if cwd_rel == "<scratch>" else Path(os.path.normpath(str(lay / cwd_rel)))
         addr = style if style not in ("abs", "rel", "messy") else addr_spellings(rng, lay, cwd_abs, pf_abs)[style]
         obs = cx.impl.run_layout(lay, cwd_rel, addr, argv)
@@ -1176,7 +1265,7 @@ def layout_case(cx: Ctx, usable, stored=None):
         kws = [manifest_state(t)[1] for t in manifests.values()]
         if all(encodable(v) for kw in kws if kw for v in kw.values()):
             cmd = "c15.efflr" if cx.eff_cmd == "c15.effr" else "c15.effl"
-            cx.pending.append((layout_request(cmd, lay, cwd_abs, addr, cx.pkg, manifests, md, cli_kv), obs, d1))
+            cx.pending.append((layout_request(cmd, lay, cwd_abs, addr, cx.pkg, manifests, md, cli_kv, files, cx.inc_repaired), obs, d1))
         results.append((cwd_rel, addr, obs))
     cx.distinct.add(common.digest(("layout", proj_rel, fmt, repr(opts), repr(sorted(manifests.items())), repr(starts))))
     ref_cwd, ref_addr, ref = results[0]
@@ -1190,11 +1279,12 @@ def layout_case(cx: Ctx, usable, stored=None):
                 diff = {ref_cwd: a[:3] if a[0] == "err" else "ok", cwd_rel: b[:3] if b[0] == "err" else "ok",
                         "message": (o[3][:200] if o[0] == "err" else ref[3][:200] if ref[0] == "err" else "")}
             cx.n_oracle_fail += 1
+            cls = inc_class if (a[0] == "ok" and b[0] == "ok" and set(diff) <= set(inc)) else None
             rep.failing_input(dict(desc, oracle="O3 independent of working directory (same project file, same files on disk)",
                                    start_a={"cwd": ref_cwd, "project_file": ref_addr},
                                    start_b={"cwd": cwd_rel, "project_file": addr,
                                             "fpm.toml in that working directory": manifests.get(cwd_rel)},
-                                   difference=diff), None)
+                                   difference=diff), cls)
             break
     # ---- O6 / O2 on every start
     for cwd_rel, addr, o in results:
@@ -1215,6 +1305,17 @@ def layout_case(cx: Ctx, usable, stored=None):
                                        written=v, expected=miss, observed=o[1].get(key)), cls)
                 bad = True
                 break
+        for key, v in inc.items():
+            if bad or key in cli:
+                continue
+            exp = "S" + expected_include(proj_abs, base_written, v)
+            if o[1].get(key) != exp:
+                cx.n_oracle_fail += 1
+                rep.failing_input(dict(desc, oracle="O6 an included file is looked up relative to md_base_dir, which is relative to the "
+                                                    "project file (default: the project file's directory), whatever the working directory",
+                                       cwd=cwd_rel, project_file=addr, option=key, written=v, md_base_dir=base_written,
+                                       expected=exp, observed=o[1].get(key)), inc_class)
+                bad = True
         for dest, vals in cli.items():
             if dest not in cx.fields or bad:
                 continue
@@ -1227,6 +1328,53 @@ def layout_case(cx: Ctx, usable, stored=None):
         if bad:
             break
     return results
+
+
+def probe_include_base(impl, root: Path) -> bool:
+    """variant of the include workaround: is a relative `md_base_dir` of the metadata taken from the project file's
+    directory (repaired) or from the working directory (as is)?  A wrong decision shows up as a correspondence
+    disagreement, never as a pass."""
+    p = root / "probe-inc" / "proj"
+    (p / "sub").mkdir(parents=True, exist_ok=True)
+    (p / "sub" / "x.md").write_text("probe")
+    old = os.getcwd()
+    try:
+        os.chdir(root / "probe-inc")
+        with common.quiet():
+            st, _ = impl.S.load_markdown_settings("proj", "---\nmd_base_dir: sub\nsummary: {!x.md!}\n---\n", "p.md")
+        return st.summary == "probe"
+    except Exception:  # noqa
+        return False
+    finally:
+        os.chdir(old)
+
+
+def include_micro(cx: Ctx, n):
+    """the model's reading of one line (`c15.incline`) against `markdown_include`'s `INC_SYNTAX`: `plain` = no match;
+    `inc pre name post` = exactly one match, `split()` gives [pre, name, post], `sub('')` gives pre + post; `other`
+    (outside the modelled fragment) claims nothing and is counted."""
+    from markdown_include.include import INC_SYNTAX
+    rng = cx.rng
+    pieces = ["{!", "!}", "{", "!", "}", " ", "  ", "inc.md", "a/b.md", "x", "~", "$H", "see", ".", "\t", "{!a!}", "{! b !}", "!!", "{{"]
+    lines = ["".join(rng.choice(pieces) for _ in range(rng.choice([1, 2, 3, 4, 5, 7]))) for _ in range(n)]
+    resps = cx.drv.batch([["c15.incline", l] for l in lines])
+    bad = 0
+    for l, r in zip(lines, resps):
+        r = list(r)
+        ms = list(INC_SYNTAX.finditer(l))
+        ok = True
+        if r[0] == "plain":
+            ok = not ms
+        elif r[0] == "inc":
+            r = r + [""] * (4 - len(r))
+            ok = len(ms) == 1 and INC_SYNTAX.split(l) == r[1:4] and INC_SYNTAX.sub("", l) == r[1] + r[3]
+        cx.count("micro:incline:" + r[0])
+        if not ok:
+            bad += 1
+            if bad <= 3:
+                cx.rep.tie_broken(f"correspondence include syntax: line {l!r} model {r} regex {[m.group(0) for m in ms]}",
+                                  {"stream": "micro-incline", "line": l})
+    return len(lines), bad
 
 
 def dirname_micro(cx: Ctx, n):
@@ -1397,6 +1545,13 @@ def replay_known(cx: Ctx, rep):
                     and not o[1]["extra_mods"].startswith("D" + ik + RS + "S" + url):
                 rep.failing_input({"witness": f"extra_mods: {ik}: {url}", "fmt": f, "observed": o[1]["extra_mods"][:300]},
                                   "C15-extra-mods-intrinsic-wins")
+    # C15-md-include-base-dir-cwd: relative md_base_dir of the metadata + an include statement, started elsewhere
+    usable = [(n_, t_) for n_, t_, _ in cx.t["schema"] if t_ not in ("noInit", "other")]
+    layout_case(cx, usable, stored={
+        "project_dir": "pkg/doc", "fmt": "md", "cli": {}, "manifests": {},
+        "md": ["---", "md_base_dir: incs", "summary: {!inc.md!}", "---"],
+        "options": [["md_base_dir", "path", "incs"]], "include": {"summary": "{!inc.md!}"},
+        "files": include_files("one"), "starts": [["pkg/doc", "rel"], ["pkg", "rel"], ["<scratch>", "abs"]]})
     o_md = cx.run(["---", "project: a;b", "---"], None, None, {}, 0, {"replay": "semicolon/md"})
     o_cf = cx.run([], None, {"project": "a;b"}, {}, 0, {"replay": "semicolon/config"})
     if o_md[0] == "ok" and o_cf[0] != "ok":
@@ -1490,6 +1645,8 @@ def run(tier: str, seed: int, replay: str | None = None) -> int:
             except Exception:  # noqa
                 pass
         cx.count("variant:extra_mods-" + ("repaired" if cx.eff_cmd == "c15.effr" else "asIs"))
+        cx.inc_repaired = probe_include_base(impl, d)
+        cx.count("variant:include-base-" + ("repaired" if cx.inc_repaired else "asIs"))
         if replay:
             return replay_file(cx, rep, lean, replay)
         ev_micro, bad_micro = micro(cx, n_micro)
@@ -1554,8 +1711,9 @@ def run(tier: str, seed: int, replay: str | None = None) -> int:
         cx.flush()
         # ---- layout (round 6): source selection, several working directories, manifests elsewhere
         ev_dn, bad_dn = dirname_micro(cx, 300 if quick else 3000)
-        ev_micro += ev_dn
-        bad_micro += bad_dn
+        ev_in, bad_in = include_micro(cx, 400 if quick else 4000)
+        ev_micro += ev_dn + ev_in
+        bad_micro += bad_dn + bad_in
         for k in range(n_layout):
             layout_case(cx, usable)
             if k % 40 == 39:
